@@ -1,5 +1,6 @@
 import RepeVerif.Lemmas.Commit
 import RepeVerif.Gen.Commit
+import RepeVerif.Props.C09
 /-!
 # C10 — A failed or interrupted pull never publishes a file, and never a partial one
 
@@ -45,7 +46,8 @@ theorem source_order :
     Gen.Commit.steps = canonical ∧ Gen.Commit.pullResFirst = true ∧
     Gen.Commit.dropRemovesUncommitted = true ∧ Gen.Commit.commitClosesBeforeRename = true ∧
     Gen.Commit.commitRemovesOnRenameError = true ∧ Gen.Commit.writeFileCommitsOnlyOnOk = true ∧
-    Gen.Commit.readerEofOnlyAfterLast = true ∧ Gen.Commit.tempSuffix = ".svspart" := by decide
+    Gen.Commit.readerEofOnlyAfterLast = true ∧ Gen.Commit.tempSuffix = ".svspart" ∧
+    Gen.Commit.tempCreateTruncates = true ∧ Gen.Commit.tempAppendsToFileName = true := by decide
 
 /-- `TrailerHold`: for every sequence of writes (any sizes, any count) the bytes forwarded to the file
 and the digest are the stream minus its last `n` bytes, the held bytes are the last `n`; a stream
@@ -83,6 +85,36 @@ theorem failure_leaves_dest (p : Puller) (s : Script) (codec : Codec) (fs₀ : F
   · rw [b]; exact htmp
   · exact tmp_of_last_remove _ _ b.1
 
+/-- The same without assuming anything about a stale temp file: a failing pull either never got as far
+as creating its temp file (no operation at all: failing `open`, incompatible tags) or ends by removing
+it. -/
+theorem failure_leaves_dest' (p : Puller) (s : Script) (codec : Codec) (fs₀ : FS)
+    (hfail : expected p s codec = none) :
+    let r := run Gen.Commit.steps p s codec
+    r.ret = .err ∧ (runOps fs₀ r.ops).dest = fs₀.dest ∧
+    ((runOps fs₀ r.ops).tmp = none ∨ (r.ops = [] ∧ (s.openOk = false ∨ preOk p s = false))) := by
+  rw [source_order.1]
+  obtain ⟨a, b, c⟩ := run_of_expected_none p s codec hfail
+  refine ⟨a, dest_of_noRename _ _ c, ?_⟩
+  by_cases hg : (s.openOk && preOk p s) = true
+  · left
+    rcases b with b | b
+    · -- an empty list is impossible once `interp` ran (it starts with `create`)
+      exfalso
+      have hb := (interp_bad (envOf p s codec) p (by
+        cases hgd : good (envOf p s codec) p with
+        | false => rfl
+        | true =>
+          have := interp_good (envOf p s codec) p hgd
+          simp only [run, hg, if_true] at b
+          rw [this] at b; simp [successOps] at b)).2.2.2.1
+      simp only [run, hg, if_true] at b
+      rw [b] at hb; simp at hb
+    · exact tmp_of_last_remove _ _ b.1
+  · right
+    refine ⟨by simp [run, hg], ?_⟩
+    cases ho : s.openOk <;> cases ht : preOk p s <;> simp_all
+
 /-- A non-failing script returns `Ok` and the destination holds exactly the expected content (the
 whole stream, decompressed where the puller decompresses, verified trailer stripped); no temp file. -/
 theorem success_publishes_complete (p : Puller) (s : Script) (codec : Codec) (fs₀ : FS) (c : Bytes)
@@ -112,7 +144,7 @@ theorem fit_some {lim : Option Nat} {x c : Bytes} (h : fit lim x = some c) :
 
 theorem published_only_if (p : Puller) (s : Script) (codec : Codec) (c : Bytes)
     (h : expected p s codec = some c) :
-    s.openOk = true ∧ tagsOk p s = true ∧ (p.verifies = true → s.verifyOk = true) ∧ s.renameOk = true ∧
+    s.openOk = true ∧ preOk p s = true ∧ (p.verifies = true → s.verifyOk = true) ∧ s.renameOk = true ∧
     s.syncOk = true ∧ (∀ k, s.writeFault = some k → c.length ≤ k) ∧
     ∃ wb lg, payloadN (if p.usesWriteFile then s.stop else none) s.wire = some wb ∧
       (if p.decodes && s.comp == .zstd then codec.dec wb else some wb) = some lg ∧
@@ -235,6 +267,12 @@ theorem sync_fault_fails (p : Puller) (s : Script) (codec : Codec) (hs : s.syncO
     expected p s codec = none := by
   simp [expected, hs]
 
+/-- A temp file that cannot be created (missing or unwritable parent directory) is a failing script, and
+nothing at all is done to the file system. -/
+theorem create_fault_fails (p : Puller) (s : Script) (codec : Codec) (hs : s.createOk = false) :
+    expected p s codec = none ∧ run Gen.Commit.steps p s codec = ⟨[], .err⟩ := by
+  simp [expected, run, preOk, hs]
+
 /-- A write refused by the file system (ENOSPC / EFBIG / EDQUOT … after `k` bytes) anywhere inside the
 content — first byte, a chunk boundary, the last byte — is a failing script for every puller:
 `failure_leaves_dest` applies (Err, destination untouched, temp file removed). -/
@@ -243,7 +281,7 @@ theorem write_fault_fails (p : Puller) (s : Script) (codec : Codec) (c : Bytes) 
     expected p { s with writeFault := some k } codec = none := by
   rw [expected_eq] at hc ⊢
   have e : streamContent p { s with writeFault := some k } codec = streamContent p { s with writeFault := none } codec := rfl
-  have t : tagsOk p { s with writeFault := some k } = tagsOk p { s with writeFault := none } := by
+  have t : preOk p { s with writeFault := some k } = preOk p { s with writeFault := none } := by
     cases p <;> rfl
   rw [e, t]
   split at hc
@@ -264,7 +302,7 @@ theorem write_limit_not_reached (p : Puller) (s : Script) (codec : Codec) (c : B
     expected p { s with writeFault := some k } codec = some c := by
   rw [expected_eq] at hc ⊢
   have e : streamContent p { s with writeFault := some k } codec = streamContent p { s with writeFault := none } codec := rfl
-  have t : tagsOk p { s with writeFault := some k } = tagsOk p { s with writeFault := none } := by
+  have t : preOk p { s with writeFault := some k } = preOk p { s with writeFault := none } := by
     cases p <;> rfl
   rw [e, t]
   split at hc
@@ -328,6 +366,195 @@ theorem runs_conform (p : Puller) (s : Script) (codec : Codec) :
         simp only [sysOf, Nat.lt_irrefl, if_false, List.nil_append, List.singleton_append, protoCheck,
           Bool.false_eq_true]
         rw [protoCheck_noRename r _ _ 0 rfl rfl hr hc]; rfl
+
+/-! ### which paths a pull touches (`temp_sibling`) -/
+
+/-- the extracted suffix, as characters -/
+def suffix : List Char := Gen.Commit.tempSuffix.toList
+
+theorem suffix_nonempty : suffix ≠ [] := by decide
+
+/-- The temp sibling is never the destination itself, lives in the destination's directory, and two
+different destinations never share a temp sibling (the suffix is appended to the *whole* file name:
+`out.bin` and `out.txt` get `out.bin.svspart` and `out.txt.svspart`). -/
+theorem temp_sibling_spec (a b : FPath) :
+    tempSibling suffix a ≠ a ∧ (tempSibling suffix a).dir = a.dir ∧
+    (tempSibling suffix a = tempSibling suffix b → a = b) ∧
+    (tempSibling suffix a = b ↔ b.dir = a.dir ∧ b.name = a.name ++ suffix) := by
+  refine ⟨tempSibling_ne suffix suffix_nonempty a, rfl, tempSibling_inj suffix a b, ?_⟩
+  cases a; cases b
+  simp only [tempSibling, FPath.mk.injEq]
+  constructor
+  · rintro ⟨h1, h2⟩; exact ⟨h1.symm, h2.symm⟩
+  · rintro ⟨h1, h2⟩; exact ⟨h1.symm, h2.symm⟩
+
+example : tempSibling suffix ⟨["d"], "out.bin".toList⟩ = ⟨["d"], "out.bin.svspart".toList⟩ := by decide
+example : tempSibling suffix ⟨["d"], "out.bin".toList⟩ ≠ tempSibling suffix ⟨["d"], "out.txt".toList⟩ := by decide
+
+/-- Frame: on a file system over all paths, a pull to `d` (any puller, any script — failing, complete,
+killed after any `k` operations) changes nothing but `d` and `d`'s temp sibling, and on those two it
+behaves exactly as the two-path model the other theorems are about. -/
+theorem pull_touches_only_its_two_paths (p : Puller) (s : Script) (codec : Codec) (d : FPath) (w : World) (k : Nat) :
+    let ops := crash k (run Gen.Commit.steps p s codec).ops
+    (runOpsAt suffix d w ops).view suffix d = runOps (w.view suffix d) ops ∧
+    ∀ q, q ≠ d → q ≠ tempSibling suffix d → runOpsAt suffix d w ops q = w q :=
+  runOpsAt_view suffix suffix_nonempty d _ w
+
+/-- Two pulls to different destinations, neither of which is the other's temp sibling (true of any two
+destinations that do not themselves end in `.svspart`), do not disturb each other: after the first ran
+to any point and the second ran completely, the second's destination and temp are what the second
+alone would have produced. -/
+theorem pulls_do_not_interfere (pa pb : Puller) (sa sb : Script) (codec : Codec) (a b : FPath) (w : World) (k : Nat)
+    (hab : a ≠ b) (h1 : a ≠ tempSibling suffix b) (h2 : b ≠ tempSibling suffix a) :
+    let opsA := crash k (run Gen.Commit.steps pa sa codec).ops
+    let opsB := (run Gen.Commit.steps pb sb codec).ops
+    (runOpsAt suffix b (runOpsAt suffix a w opsA) opsB).view suffix b = runOps (w.view suffix b) opsB := by
+  intro opsA opsB
+  have hA := (runOpsAt_view suffix suffix_nonempty a opsA w).2
+  have hB := (runOpsAt_view suffix suffix_nonempty b opsB (runOpsAt suffix a w opsA)).1
+  rw [hB]
+  have e1 : runOpsAt suffix a w opsA b = w b := hA b (Ne.symm hab) h2
+  have e2 : runOpsAt suffix a w opsA (tempSibling suffix b) = w (tempSibling suffix b) :=
+    hA _ (Ne.symm h1) (fun h => hab (tempSibling_inj suffix a b h.symm))
+  simp only [World.view, e1, e2]
+
+/-! ### composition with C09: the streams its model produces are scripts of this model -/
+
+/-- C09's `next` responses as this model's answers (`last` = the 1-byte query is `[1]`). -/
+def wireOfResps (rs : List Svs.Resp) : Wire :=
+  rs.map fun r => match r with
+    | .chunk b q => .chunk b (Svs.isLast 1 q)
+    | .error => .error
+
+/-- C09's pull results as answers (the lemma shape the C09 builder targets: every run of its model,
+`Session.pull` results or server responses, maps to a `Wire`). -/
+def wireOfPulls (rs : List Svs.PullRes) : Wire :=
+  rs.map fun r => match r with
+    | .ok (c, last) => .chunk c last
+    | .error _ => .error
+
+theorem wireOfResps_respOfPull (rs : List Svs.PullRes) :
+    wireOfResps (rs.map (Svs.respOfPull Gen.svsFacts)) = wireOfPulls rs := by
+  rw [C09.source_facts]
+  induction rs with
+  | nil => rfl
+  | cons r rs ih =>
+    simp only [wireOfResps, wireOfPulls, List.map_cons, List.map_map] at ih ⊢
+    rw [ih]
+    cases r with
+    | error e => rfl
+    | ok v => obtain ⟨c, l⟩ := v; cases l <;> rfl
+
+/-- What this model reads off a response list is what C09's async (hence, by `C09.async_eq_sync`, sync)
+reassembler returns. -/
+theorem payload_wireOfResps (rs : List Svs.Resp) :
+    payload (wireOfResps rs) = Svs.asyncPull Gen.svsFacts rs := by
+  rw [C09.source_facts]
+  unfold payload Svs.asyncPull
+  induction rs with
+  | nil => rfl
+  | cons r rs ih =>
+    cases r with
+    | error => rfl
+    | chunk b q =>
+      simp only [wireOfResps, List.map_cons] at ih ⊢
+      cases hl : Svs.isLast 1 q with
+      | true =>
+        have : Svs.isLast Svs.specFacts.asyncLastIs q = true := hl
+        simp only [payloadN, Svs.asyncLoop, this, if_true, Svs.channelReaderAll]
+        cases b <;> simp [Svs.specFacts]
+      | false =>
+        have : Svs.isLast Svs.specFacts.asyncLastIs q = false := hl
+        simp only [payloadN, Option.map_none, Svs.asyncLoop, this, Bool.false_eq_true, if_false]
+        rw [ih]
+        cases Svs.asyncLoop Svs.specFacts rs with
+        | mk more ok =>
+          cases ok <;> cases b <;> simp [Svs.specFacts, Svs.channelReaderAll]
+
+/-- End to end through both models: a producer writes `evs` (any fragmentation, any flushes, chunk size
+`c ≥ 1`), C09's server answers `n` `next` requests; as a script of this model that stream is equivalent,
+for every puller and every other script field, to a single final chunk carrying exactly the written
+bytes.  (`success_publishes_complete` / `failure_leaves_dest` / `crash_atomic` then apply.) -/
+theorem c09_stream_is_complete_script (c : Nat) (hc : 1 ≤ c) (evs : List Svs.Ev) (sv : Svs.Server) (n : Nat)
+    (hn : (Svs.evBytes evs).length / c + 1 ≤ n) (p : Puller) (s : Script) (codec : Codec) :
+    ∃ msgs, Svs.produce Gen.svsFacts c evs .ok = some msgs ∧
+      payload (wireOfResps (Svs.responses Gen.svsFacts sv msgs n)) = some (Svs.evBytes evs) ∧
+      expected p { s with wire := wireOfResps (Svs.responses Gen.svsFacts sv msgs n), stop := none } codec =
+        expected p { s with wire := [.chunk (Svs.evBytes evs) true], stop := none } codec := by
+  obtain ⟨msgs, h1, _, _, h4⟩ := C09.end_to_end c hc evs sv n hn (fun _ => 1) (fun _ => Nat.le_refl 1)
+  have hp := payload_wireOfResps (Svs.responses Gen.svsFacts sv msgs n)
+  rw [h4] at hp
+  refine ⟨msgs, h1, hp, ?_⟩
+  have e1 : ∀ lim : Option Nat, (if p.usesWriteFile then (none : Option Nat) else none) = lim → lim = none := by
+    intro lim h; cases hu : p.usesWriteFile <;> simp_all
+  unfold expected
+  have hn' : (if p.usesWriteFile = true then (none : Option Nat) else none) = none := by split <;> rfl
+  simp only [hn']
+  have : payloadN none (wireOfResps (Svs.responses Gen.svsFacts sv msgs n)) = some (Svs.evBytes evs) := hp
+  simp only [this, payloadN]
+  rfl
+
+/-- … and when the producer fails or vanishes after any number of writes, the stream is a failing script
+of this model for every puller: `Err`, destination untouched, no temp file. -/
+theorem c09_failed_stream_leaves_dest (c : Nat) (hc : 1 ≤ c) (evs : List Svs.Ev) (e : Svs.BodyEnd) (he : e ≠ .ok)
+    (sv : Svs.Server) (n : Nat) (p : Puller) (s : Script) (codec : Codec) (fs₀ : FS) (htmp : fs₀.tmp = none) :
+    ∃ msgs, Svs.produce Gen.svsFacts c evs e = some msgs ∧
+      let r := run Gen.Commit.steps p { s with wire := wireOfResps (Svs.responses Gen.svsFacts sv msgs n) } codec
+      r.ret = .err ∧ (runOps fs₀ r.ops).dest = fs₀.dest ∧ (runOps fs₀ r.ops).tmp = none := by
+  obtain ⟨msgs, h1, _, _, h4⟩ := C09.end_to_end_failure c hc evs e he sv n (fun _ => 1) (fun _ => Nat.le_refl 1)
+  refine ⟨msgs, h1, ?_⟩
+  have hp := payload_wireOfResps (Svs.responses Gen.svsFacts sv msgs n)
+  rw [h4] at hp
+  apply failure_leaves_dest _ _ _ _ _ htmp
+  -- no `last` within any limit either
+  have hlim : ∀ (w : Wire) (lim : Option Nat), payloadN none w = none → payloadN lim w = none := by
+    intro w
+    induction w with
+    | nil => intro lim _; cases lim with
+      | none => rfl
+      | some k => cases k <;> rfl
+    | cons r w ih =>
+      intro lim h
+      cases r with
+      | error => cases lim with
+        | none => rfl
+        | some k => cases k <;> rfl
+      | cut => cases lim with
+        | none => rfl
+        | some k => cases k <;> rfl
+      | chunk b l =>
+        cases l with
+        | true => simp [payloadN] at h
+        | false =>
+          have h' : payloadN none w = none := by simpa [payloadN] using h
+          cases lim with
+          | none => simp [payloadN, h']
+          | some k => cases k <;> simp [payloadN, ih _ h']
+  unfold expected
+  simp only [hlim _ _ hp]
+  split <;> rfl
+
+/-- The complete-stream composition, instantiated: a blocking `pull_to_file` of an uncompressed stream
+produced by C09's model publishes exactly the bytes the producer wrote. -/
+theorem c09_file_pull_publishes (c : Nat) (hc : 1 ≤ c) (evs : List Svs.Ev) (sv : Svs.Server) (n : Nat)
+    (hn : (Svs.evBytes evs).length / c + 1 ≤ n) (codec : Codec) (fs₀ : FS) :
+    ∃ msgs, Svs.produce Gen.svsFacts c evs .ok = some msgs ∧
+      let s : Script := { openOk := true, comp := .none, beve := false, stop := none, verifyOk := true, trailer := 0,
+                          renameOk := true, wire := wireOfResps (Svs.responses Gen.svsFacts sv msgs n) }
+      let r := run Gen.Commit.steps .file s codec
+      r.ret = .ok ∧ runOps fs₀ r.ops = { dest := some (Svs.evBytes evs), tmp := none } := by
+  obtain ⟨msgs, h1, _, h3⟩ := c09_stream_is_complete_script c hc evs sv n hn .file
+    { openOk := true, comp := .none, beve := false, stop := none, verifyOk := true, trailer := 0,
+      renameOk := true, wire := [] } codec
+  refine ⟨msgs, h1, ?_⟩
+  apply success_publishes_complete
+  rw [h3]
+  rfl
+
+example : ∃ msgs, Svs.produce Gen.svsFacts 2 [.write [1, 2, 3], .flush, .write [4, 5]] .ok = some msgs ∧
+    payload (wireOfResps (Svs.responses Gen.svsFacts {} msgs 4)) = some [1, 2, 3, 4, 5] := ⟨_, rfl, by decide⟩
+example : payload (wireOfResps (Svs.responses Gen.svsFacts {}
+    ((Svs.produce Gen.svsFacts 2 [.write [1, 2, 3, 4, 5]] (.err "boom")).getD []) 6)) = none := by decide
 
 /-! ### value-decoding pulls -/
 
